@@ -264,6 +264,55 @@ def status_from_new_identity(r, roots):
             w.close()
 
 
+def repeated_identity_change(r, roots):
+    """A contact may change its identity more than once while the client runs.  With automatic trust every change is taken over (the new
+    key replaces the remembered one, the message is shown); without, every change is refused and the first key stays."""
+    from yowsup.layers.protocol_messages.protocolentities import TextMessageProtocolEntity
+    from yowsup.layers.protocol_messages.protocolentities.attributes.attributes_message_meta import MessageMetaAttributes
+    for auto in (True, False):
+        r.case(("repeated-identity-change", auto))
+        r.cov["traces_validated_against_impl"] += 1
+        try:
+            w = e2e.World(roots, 2, autotrust=[False, auto], group=False)
+        except Exception as ex:
+            r.violation("exception:boot:%s" % type(ex).__name__, "the accounts cannot log in: %r" % (ex,), {})
+            continue
+        n = {"k": 0}
+
+        def send(s, d):
+            n["k"] += 1
+            mid = "r%d" % n["k"]
+            w.do_submit(s, mid, d, TextMessageProtocolEntity("text-" + mid, MessageMetaAttributes(id=mid, recipient=w.acc(d).jid)))
+            w.settle(cap=800)
+            return mid
+        try:
+            a, b = w.acc("a"), w.acc("b")
+            send("a", "b")
+            first = b.pinned(a)
+            for change in (1, 2, 3):
+                a.reinstall()
+                key = a.identity_pub()
+                mid = send("a", "b")             # the new installation writes first
+                shown = any(x[0] == "b" and x[1] == mid for x in w.shown)
+                now = b.pinned(a)
+                if auto and (now != [key] or not shown):
+                    r.violation("pin:not-updated:autotrust:change-%d" % change, "with automatic trust, identity change #%d of a contact within one run: the remembered key was %s, the message was %s" % (
+                        change, "replaced" if now == [key] else "NOT replaced", "shown" if shown else "not shown"), {"auto": auto, "change": change})
+                    break
+                if not auto and (now != first or shown):
+                    r.violation("pin:replaced-silently:change-%d" % change, "without automatic trust, identity change #%d of a contact: the remembered key %s, the message was %s" % (
+                        change, "stayed" if now == first else "CHANGED", "shown" if shown else "not shown"), {"auto": auto, "change": change})
+                    break
+        except e2e.Diverged:
+            r.violation("diverged:repeated-identity-change", "the exchange does not settle (automatic trust %s)" % auto, {"auto": auto})
+        except core.MachineryError:
+            raise
+        except Exception as ex:
+            r.violation("exception:repeated-identity-change:%s" % type(ex).__name__, "raised %r (automatic trust %s)" % (ex, auto), {"auto": auto})
+        finally:
+            w.close()
+
+
 def run(only=None):
     r = core.Run("C17", "model_checking")
     thorough = r.tier == "thorough"
@@ -304,6 +353,7 @@ def run(only=None):
             r.notes["spec_transitions_replayed_%d" % len(names)] = len(covered)
         group_first_message(r, roots)
         status_from_new_identity(r, roots)
+        repeated_identity_change(r, roots)
         if len(r.notes.get("drift", [])) > 5 and not r.violations:
             raise core.MachineryError("Identity.tla does not describe the exchange: %s" % r.notes["drift"][:3])
     finally:
